@@ -222,8 +222,21 @@ def c08(tier, seed):
     )
 
 
+def c15(tier, seed):
+    return generic(
+        "C15", tier, seed, scaled_quick=(), scaled_thorough=(), budgets=(150, 2400),
+        rule="peak live heap (counting allocator, one child process per measurement) while writing from a generator to a discarding sink, repairing and linearly "
+             "extracting an archive streamed from a scratch file; fixed shape 4 files x 16 interleaved runs, sizes 8 and 64 MiB (quick) or 16, 128 and 1024 MiB "
+             "(thorough), 4 layer combos, several levels, incompressible and constant data; verdict: peak(largest) - peak(smallest) <= 2 MiB and peak under a frozen "
+             "ceiling; distinct = distinct (operation, layers, level, data, size); all non-trivial",
+        musthit=["growth_comparisons:write", "growth_comparisons:repair", "growth_comparisons:extract"],
+        assumptions=["decided for the sizes actually streamed; not extrapolated beyond them"],
+    )
+
+
 PROPS = {
     "C01": c01,
+    "C15": c15,
     "C08": c08,
     "C07": c07,
     "C09": c09,
